@@ -21,7 +21,8 @@ RULE = ("scenarios = <=5 launches (event trigger / service call / @task_unique-d
         "task.sleep(k*10ms) / raise / finish over <=3 names and 2 global contexts (two script files); families: "
         "A = sampled from the full product of 3 tasks x 2 steps x start offsets in one context, B = random 2-5 tasks "
         "over both contexts with all launch kinds, C = directed shapes (same-instant double dispatch of a decorated "
-        "function, decorated vs running owner, foreign callers, nested context names with dotted task names). "
+        "function, decorated vs running owner, foreign callers, nested context names with dotted task names - since "
+        "/repo ef1f444 expected to be as separate as any other two contexts). "
         "Every scenario runs under legacy_decorators True and False.  Non-trivial = at least one task.unique step or "
         "decorator; distinct by payload.")
 ASSUMPTIONS = [
@@ -243,7 +244,9 @@ async def _body(env, p):
                     "status": {t: ("r" if not t.done() else ("c" if t.cancelled() else "d")) for t in seen},
                     "queue": [c[1] for c in list(q._queue) if c and c[0] == "cancel"],
                     "ours": set(Function.our_tasks),
-                    "t2n": {t: set(ns) for t, ns in Function.unique_task2name.items()}}
+                    # keys are (ctx_name, name) tuples since /repo ef1f444 (strings before): print ctx/name
+                    "t2n": {t: {(f"{k[0]}/{k[1]}" if isinstance(k, tuple) else str(k)) for k in ns}
+                            for t, ns in Function.unique_task2name.items()}}
             trace.append(("snap", snap))
             env.records.append((env.now(), "snap", snap))
 
